@@ -172,6 +172,9 @@ func (s *Service) proposeBlock(ctx context.Context,
 	}
 
 	if signedProposal.Blinded {
+		if auctionResults == nil {
+			return errors.New("no auction results to unblind the proposal")
+		}
 		// Select the relays to unblind the proposal.
 		providers := make([]builderclient.UnblindedProposalProvider, 0, len(auctionResults.AllProviders))
 		unblindingCandidates := auctionResults.Providers
